@@ -65,3 +65,13 @@ impl VariantCasts for Variant {
         }
     }
 }
+
+/// Converts a count or position into a `Variant`:
+/// an INTEGER if it fits, otherwise a LONG.
+pub fn whole_number_to_variant(n: usize) -> Variant {
+    if n <= i16::MAX as usize {
+        Variant::VInteger(n as i32)
+    } else {
+        Variant::VLong(n as i64)
+    }
+}
